@@ -237,8 +237,8 @@ def result_used(ctx, db, rid, family, floor=8):
             ctx.ob(rid, f, e['loc'], ok, 'result of %s is used (%s)' % (norm(e['callee']).split('::', 1)[1], how), desc='result of %s discarded' % norm(e['callee']))
 
 
-def init_before_publish(ctx, db, summ):
-    rid = ctx.rule('C02.init-before-publish', 'ORDER', 'in every await_suspend that publishes its own awaiter, set_handle / set_resume_fn precedes the publishing call on every path', floor=3)
+def init_before_publish(ctx, db, summ, rid='C02.init-before-publish'):
+    rid = ctx.rule(rid, 'ORDER', 'in every await_suspend that publishes its own awaiter, set_handle / set_resume_fn precedes the publishing call on every path', floor=3)
     T = Tracer(db, depth=0)
     for key in db.keys():
         f = db.rep(key)
